@@ -366,7 +366,7 @@ func (k *KDC) handleAS(req *krbmsg.KDCReq) []byte {
 		}
 		_, pt, err := rcrypto.Decrypt(ed.EType, pk.Value, 1, ed.Cipher)
 		if err != nil {
-			k.violate("PA-ENC-TIMESTAMP does not decrypt under the client key with key usage 1: %v", err)
+			k.violate("(soft) PA-ENC-TIMESTAMP does not decrypt under the client key with key usage 1: %v", err)
 			return k.errReply(24, req, krbmsg.EncodeMethodData([]krbmsg.PAData{{Type: 19, Value: eti2()}}))
 		}
 		if ed.EType == rcrypto.DES3 {
@@ -538,6 +538,13 @@ func (k *KDC) handleTGS(req *krbmsg.KDCReq) []byte {
 		tkey = k.TGSKey
 	case len(tkt.SName.Names) == 2 && tkt.SName.Names[0] == "krbtgt" && tkt.SName.Names[1] == k.Realm:
 		ck, ok := k.CrossIn[tkt.Realm]
+		if !ok {
+			return k.errReply(31, req, nil)
+		}
+		tkey = ck
+	case len(tkt.SName.Names) == 2 && tkt.SName.Names[0] == "krbtgt" && tkt.Realm == k.Realm && renewal:
+		// renewal of a cross-realm TGT this realm issued
+		ck, ok := k.CrossOut[tkt.SName.Names[1]]
 		if !ok {
 			return k.errReply(31, req, nil)
 		}
